@@ -30,6 +30,10 @@ type c20Finding struct {
 	Title string `json:"title"`
 	Sev   int    `json:"sev"` // 0 = nil severity
 	Extra string `json:"extra"`
+	// Pretagged: the finding comes back from the detector with its Detectors field already
+	// filled in (a finding object that went through an earlier scan, or a detector that fills
+	// it itself): the result must still name exactly the detector that returned it.
+	Pretagged bool `json:"pretagged,omitempty"`
 }
 
 type c20Detector struct {
@@ -73,6 +77,7 @@ func genC20(t *rapid.T) c20Case {
 				Sev:   rapid.SampledFrom([]int{0, 0, 0, 3, 4}).Draw(t, "sev"),
 				Extra: rapid.SampledFrom([]string{"", "x", "y"}).Draw(t, "extra"),
 			}
+			f.Pretagged = rapid.IntRange(0, 5).Draw(t, "pretagged") == 0
 			switch rapid.IntRange(0, 14).Draw(t, "broken") {
 			case 0:
 				f.NoAdv = true
@@ -88,6 +93,9 @@ func genC20(t *rapid.T) c20Case {
 
 func (f c20Finding) build() *detector.Finding {
 	out := &detector.Finding{Extra: f.Extra}
+	if f.Pretagged {
+		out.Detectors = []string{"someone/else", "fake/det0"}
+	}
 	if f.NoAdv {
 		return out
 	}
@@ -311,6 +319,11 @@ func propC20(c c20Case) (ev.Outcome, error) {
 	for _, d := range c.Detectors {
 		if d.Fail && len(d.Findings) > 0 {
 			o.Classes = append(o.Classes, "detector_error_with_findings")
+		}
+		for _, f := range d.Findings {
+			if f.Pretagged {
+				o.Classes = append(o.Classes, "finding_returned_with_detectors_filled_in")
+			}
 		}
 	}
 	if nsSeen {
